@@ -390,6 +390,10 @@ M("r21-build-new-set-off-by-one", ["C01", "C03", "C12"], "break",
   "build_new_set/dists")
 M("r21-negated-bound-benign", ["C01", "C03", "C12"], "benign",
   [("yaep.c", "      if (sit_ind >= set_core->n_all_dists)\n#ifdef TRANSITIVE_TRANSITION", "      if (!(sit_ind < set_core->n_all_dists))\n#ifdef TRANSITIVE_TRANSITION")])
+M("t4-revert-F30-null-to-parse-free", ["C13"], "break",
+  [("yaep.c", "      if (node->val._anode_name.name != NULL)\n	parse_free (node->val._anode_name.name);", "      parse_free (node->val._anode_name.name);")], "free_tree_sweep/release")
+M("r11-sweep-name-never-released", ["C13"], "break",
+  [("yaep.c", "      if (node->val._anode_name.name != NULL)\n	parse_free (node->val._anode_name.name);", "      ;")], "free_tree_sweep/YAEP_ANODE/name")
 
 # ---- R8 / R2f (C16, C19) ----------------------------------------------------------------------------
 M("r8-revert-F14", ["C19", "C16"], "break", [("hashtab.cpp", "		  entry_ptr = first_deleted_entry_ptr;\n		  *entry_ptr = EMPTY_ENTRY;", "		  entry_ptr = first_deleted_entry_ptr;\n		  *entry_ptr = DELETED_ENTRY;")], "find_hash_table_entry~")
